@@ -22,6 +22,8 @@ Histories.  A case of C12.val.* / C12.fix.sticks is a directory plus a history: 
 validation passes, each strict (None) or with a fix tolerance k.  After every pass the checker
 compares raise/no-raise with the oracle and the files on disk with the oracle's directory:
   strict pass      raises  <=> some documented condition is violated;   never changes a file
+                   (the documented exception is ValueError; where the oracle demands a rejection any
+                   exception is accepted as one, where it demands acceptance every exception is a failure)
   pass with fix k  raises  <=> some defect is not one of the documented repairable ones (for k);
                    no raise => every file equals the documented repair of what was stored, and
                                nothing else changed (so a later strict pass must accept: the
@@ -362,10 +364,10 @@ def check_history(case):
             try:
                 data.validate_spect_data_set(ds, fix)
                 raised = None
-            except ValueError as e:
-                raised = str(e)
+            except Exception as e:  # the property says "raises"; the documented type is ValueError, any exception counts as a rejection
+                raised = "%s(%r)" % (type(e).__name__, str(e)[-160:])
             if raised is not None and not want_raise:
-                return "%s raised ValueError(%r) but %s" % (what, raised[-160:], "the directory meets every documented condition" if fix is None else "every defect present is a documented repairable one")
+                return "%s raised %s but %s" % (what, raised, "the directory meets every documented condition" if fix is None else "every defect present is a documented repairable one")
             if raised is None and want_raise:
                 return "%s accepted a directory that %s" % (what, "violates a documented condition" if fix is None else "has a defect outside the documented repairable ones")
             disk = read_state(root, state, only_modified=True)
@@ -793,10 +795,10 @@ def check_info(case):
         try:
             rc = command_line.get_torch_spect_data_dir_info([root, out_path] + flags)
             raised = None
-        except ValueError as e:
-            raised = str(e)
+        except Exception as e:  # any exception counts as a rejection (documented: ValueError)
+            raised = "%s(%r)" % (type(e).__name__, str(e)[-160:])
         if raised is not None and not want_raise:
-            return "%s raised ValueError(%r) on a directory it should accept" % (what, raised[-160:])
+            return "%s raised %s on a directory it should accept" % (what, raised)
         if raised is None and want_raise:
             return "%s accepted a directory that %s" % (what, "violates a documented condition" if mode == "strict" else "has a defect outside the documented repairable ones (fix=%d)" % fix)
         if raised is not None:
@@ -1076,6 +1078,11 @@ def _k_soseos_empty2d(case, msg):
     return (c.get("sos") is not None or c.get("eos") is not None) and "IndexError" in msg and any("ref" in u and u["ref"]["s"] == [0, 3] for u in case["utts"])
 
 
+def _k_soseos_uint8(case, msg):
+    c = _cfg(case)
+    return (c.get("sos") is not None or c.get("eos") is not None) and "255" in msg and any("ref" in u and u["ref"]["d"] == "uint8" and len(u["ref"]["s"]) == 2 for u in case["utts"])
+
+
 def _k_tokens_only(case, msg):
     return bool(_cfg(case).get("tokens_only")) and any("ref" in u and len(u["ref"]["s"]) == 2 for u in case["utts"])
 
@@ -1138,6 +1145,11 @@ _finding("KF-C12-2", "C12.fix.sticks",
          "a fixing pass on a data set configured with sos/eos writes every repaired reference back WITH the sos/eos entries the data set added on read, so the stored transcript gains tokens (and gains them again on every later repair)",
          "data set has sos or eos configured, fix is not None, and some reference file needs a documented repair",
          {"tags": ["ref:2d-over1"], "utts": [utt("u0", _OK, None, ref2([[1, 0, 3]]))], "cfg": {"sos": SOS, "eos": EOS}, "history": [1, None, 1]}, _k_soseos_written)
+_finding("KF-C12-9", "C12.fix.sticks",
+         "a fixing pass on a data set configured with sos/eos sees a stored uint8 (R, 3) reference with the added sos/eos row, whose 'unknown' boundaries -1 wrap to 255 in uint8: after the documented upcast the row is rejected as out of range "
+         "(same root as KF-C12-2: validation works on the data set's view of the reference, not on the stored tensor)",
+         "data set has sos or eos configured, fix is not None, and some stored reference is a uint8 tensor of shape (R, 3)",
+         {"tags": ["ref:2d-u8"], "utts": [utt("u0", _OK, None, ref2([[1, 0, 2]], "uint8"))], "cfg": {"sos": SOS}, "history": [0, None, 0]}, _k_soseos_uint8)
 _finding("KF-C12-4", "C12.soseos.inverse",
          "_load_ref builds the sos/eos entries from ref[:1] / ref[0]: an empty 1-D transcript is returned without sos and eos, an empty (0, 3) transcript raises IndexError",
          "stored transcript is empty (R == 0) and sos or eos is configured",
